@@ -179,7 +179,7 @@ def _explore_expand(P, u):
 
     it = EI(P, u, {'opaque': ['hideset_contains', 'find_macro', 'hideset_union', 'new_hideset', 'add_hideset', 'subst', 'append',
                               'hideset_intersection', 'equal', 'copy_token'] + list_passes(u, 'expand_macro'),
-                   'cut': {'read_macro_args': cut_rma}, 'loop_limit': 1, 'track_stores': True})
+                   'cut': {'read_macro_args': cut_rma}, 'loop_limit': 2, 'track_stores': True})
     def mk(ctx):
         box = {'rest': 0}
         ctx.box = box
